@@ -2,6 +2,8 @@ package v2
 
 import (
 	"bytes"
+	"errors"
+	"math"
 	"sync"
 
 	"github.com/hydraide/hydraide/app/core/compressor"
@@ -9,6 +11,14 @@ import (
 
 // snappyCompressor is a shared compressor instance for Snappy compression
 var snappyCompressor = compressor.New(compressor.Snappy)
+
+// MaxBlockEntries is the largest number of entries a single block can hold:
+// BlockHeader.EntryCount is 16 bits wide.
+const MaxBlockEntries = math.MaxUint16
+
+// ErrTooManyEntries is returned when a block would hold more entries than its
+// 16-bit entry counter can express.
+var ErrTooManyEntries = errors.New("block cannot hold more than 65535 entries")
 
 // WriteBuffer collects entries before flushing them as a compressed block.
 // It provides efficient batching of writes to minimize I/O operations.
@@ -38,14 +48,21 @@ func (wb *WriteBuffer) Add(entry Entry) bool {
 	wb.entries = append(wb.entries, entry)
 	wb.currentSize += entry.Size()
 
-	return wb.currentSize >= wb.maxSize
+	return wb.isFullLocked()
 }
 
 // ShouldFlush returns true if the buffer has reached its maximum size
 func (wb *WriteBuffer) ShouldFlush() bool {
 	wb.mu.Lock()
 	defer wb.mu.Unlock()
-	return wb.currentSize >= wb.maxSize
+	return wb.isFullLocked()
+}
+
+// isFullLocked reports whether the buffered entries must be flushed as a block:
+// either the size threshold is reached, or one more entry would not fit the
+// 16-bit per-block entry counter (tiny entries in a large block).
+func (wb *WriteBuffer) isFullLocked() bool {
+	return wb.currentSize >= wb.maxSize || len(wb.entries) >= MaxBlockEntries
 }
 
 // IsEmpty returns true if the buffer has no entries
@@ -78,6 +95,10 @@ func (wb *WriteBuffer) Flush() (*BlockHeader, []byte, error) {
 
 	if len(wb.entries) == 0 {
 		return nil, nil, nil
+	}
+	if len(wb.entries) > MaxBlockEntries {
+		// Never let the 16-bit counter wrap silently; the entries stay buffered.
+		return nil, nil, ErrTooManyEntries
 	}
 
 	// Serialize all entries
@@ -181,6 +202,9 @@ func ParseBlock(header *BlockHeader, compressedData []byte) (*Block, error) {
 func CompressEntries(entries []Entry) (*BlockHeader, []byte, error) {
 	if len(entries) == 0 {
 		return nil, nil, nil
+	}
+	if len(entries) > MaxBlockEntries {
+		return nil, nil, ErrTooManyEntries
 	}
 
 	// Calculate total size and serialize
